@@ -41,11 +41,15 @@ func H_C03_bind() {
 	for _, k := range kwNames {
 		body = append(body, k)
 	}
-	def := "f := {|" + strings.Join(params, ", ") + "| [[" + strings.Join(body, ", ") + "], \\0, \\_]}"
+	// g is a variable of the scope where the literal is written; the body reads it
+	def := "g := 77; f := {|" + strings.Join(params, ", ") + "| [[" + strings.Join(body, ", ") + "], \\0, \\_, g]}"
 	if np+nk == 0 {
-		def = "f := {|| [[], \\0, \\_]}"
+		def = "g := 77; f := {|| [[], \\0, \\_, g]}"
 	}
 	h.EvalNoPanic(def)
+	// the keyword the function does not declare: a fresh name, the name of the first
+	// positional parameter, or the name of the outer variable the body reads
+	unknown := []string{"zz", "p1", "g"}[rt.Choice(3)]
 
 	na := rt.Choice(5)
 	star := na >= 2 && rt.Bool() // last two positionals written as *[a, b]
@@ -60,7 +64,7 @@ func H_C03_bind() {
 	passed := map[string]int64{}
 	var order []string
 	var before, after, unpack []string
-	for i, k := range []string{"k1", "k2", "zz"} {
+	for i, k := range []string{"k1", "k2", unknown} {
 		v := int64(50 + i)
 		switch rt.Choice(4) {
 		case 1:
@@ -88,10 +92,11 @@ func H_C03_bind() {
 	rt.Note(def + "; " + call)
 	res := h.EvalNoPanic(call)
 	out, ok := res.(*object.PanArr)
-	rt.Assert(ok && len(out.Elems) == 3, "the call must return the bound values")
-	if !ok || len(out.Elems) != 3 {
+	rt.Assert(ok && len(out.Elems) == 4, "the call must return the bound values")
+	if !ok || len(out.Elems) != 4 {
 		return
 	}
+	rt.Assert(isInt(out.Elems[3], 77), "the body sees the variable of the scope where the literal was written (a keyword the function does not declare is not a variable of the call)")
 	bound, ok := out.Elems[0].(*object.PanArr)
 	rt.Assert(ok && len(bound.Elems) == np+nk, "every parameter is bound")
 	for i := 0; i < np; i++ {
@@ -226,6 +231,11 @@ var c03Scenarios = []c03S{
 				return -1
 			}
 			return n(arr.Elems[0]) == 2 && n(arr.Elems[1]) == 1 && n(arr.Elems[2]) == 1 && n(arr.Elems[3]) == 1
+		}},
+	{"a keyword the function does not declare binds no parameter and no variable", `x := a; f := {|p, k: 0| [p, x, k, {|| [p, x]}()]}; f(1, x: b, p: b)`,
+		func(r object.PanObject, a, b int64) bool {
+			arr, ok := r.(*object.PanArr)
+			return ok && len(arr.Elems) == 4 && isInt(arr.Elems[0], 1) && isInt(arr.Elems[1], a) && isInt(arr.Elems[2], 0) && arrOfInts(arr.Elems[3], 1, a)
 		}},
 	{"a method body sees its defining scope, not the receiver's properties as variables", `v := a; o := {v: b, get: m{|| v}}; o.get`,
 		func(r object.PanObject, a, b int64) bool { return isInt(r, a) }},
